@@ -250,6 +250,16 @@ Theorem C01_zigzag_bits_py_decode : forall n : N, py_zz_dec (Z.of_N n) = zz_dec 
 Proof. exact py_zz_dec_correct. Qed.
 Print Assumptions C01_zigzag_bits_py_decode.
 
+(* ... and the unsigned varint writers as the runtimes compute them - `static_cast<uint8_t>(value) | 0x80; value >>= 7` in C++,
+   `(int_val & 0x7F) | 0x80; int_val >>= 7` in Python (Model.VarintBits, text-tied on every run) - emit venc for EVERY value *)
+From YV Require Import Model.VarintBits Proofs.VarintBitsProofs.
+Theorem C01_varint_bits_cpp : forall n, cpp_venc n = venc n.
+Proof. exact cpp_venc_correct. Qed.
+Print Assumptions C01_varint_bits_cpp.
+Theorem C01_varint_bits_py : forall n, py_venc n = venc n.
+Proof. exact py_venc_correct. Qed.
+Print Assumptions C01_varint_bits_py.
+
 (* non-vacuity *)
 Example C01_hyp_sat :
   steps_ok [SValue (TRec [TPrim PString; TOpt (TPrim PInt32)]); SStream (TUnion true [TPrim PFloat32; TVec (TPrim PUint16)])]
